@@ -463,8 +463,12 @@ func (e *EdgeQuery) findEdgesInternal(target distanceTarget, opts *queryOptions)
 	// distanceLimit < maxError, this reduces the distance limit to 0,
 	// i.e. all remaining candidate cells and edges can safely be discarded.
 	// (This is how IsDistanceLess() and friends are implemented.)
-	targetUsesMaxError := opts.maxError != target.distance().zero().chordAngle() &&
-		e.target.setMaxError(opts.maxError)
+	//
+	// The target is always told the current maxError (even when it is zero),
+	// so that a target reused after a query with a larger error, such as
+	// IsDistanceLess, does not keep using that error.
+	usesMaxError := e.target.setMaxError(opts.maxError)
+	targetUsesMaxError := opts.maxError != target.distance().zero().chordAngle() && usesMaxError
 
 	// Note that we can't compare maxError and distanceLimit directly
 	// because one is a Delta and one is a Distance. Instead we subtract them.
